@@ -31,7 +31,7 @@ HIDDEN_F = [0.0, 1e20, -9999.0, 3.5, -1e-300]
 HIDDEN_I = [0, -9999, 77, 123456]
 
 
-NP_INT = {"DInt": numpy.int64, "DInt32": numpy.int32, "DInt16": numpy.int16, "DInt8": numpy.int8}
+NP_INT = {"DInt": numpy.int64, "DInt32": numpy.int32, "DInt16": numpy.int16, "DInt8": numpy.int8, "DUInt": numpy.uint64}
 NP_FLOAT = {"DFloat": numpy.float64, "DFloat32": numpy.float32}
 
 
@@ -40,8 +40,10 @@ def gen_array(rnd, shape, dt, fuzzy, mask_p, hostile=False, big=False, fine=Fals
     big: values near the top of the narrow type's range; fine: float64 values that need more than 24 bits."""
     L = int(numpy.prod(shape)) if shape else 1
     if dt in NP_INT:
-        top = {"DInt": 6, "DInt32": 2 ** 30, "DInt16": 30000, "DInt8": 100}[dt]
+        top = {"DInt": 6, "DInt32": 2 ** 30, "DInt16": 30000, "DInt8": 100, "DUInt": 12}[dt]
         vals = [rnd.randint(-6, 6) if not big or rnd.random() < 0.3 else rnd.choice([-1, 1]) * (top - rnd.randint(0, 5)) for _ in range(L)]
+        if dt == "DUInt":      # what the NetCDF reader hands over for DataType "Positive Integer": unsigned 64-bit cells
+            vals = [rnd.randint(0, 12) for _ in range(L)]
     elif fuzzy:
         vals = [rnd.randint(-8, 8) / 8.0 for _ in range(L)]
     else:
@@ -56,7 +58,7 @@ def gen_array(rnd, shape, dt, fuzzy, mask_p, hostile=False, big=False, fine=Fals
     if all(mask) and L and mask_p < 1.0:
         mask[rnd.randrange(L)] = False
     isint = dt in NP_INT
-    hid = [(rnd.choice([h for h in HIDDEN_I if abs(h) < 120] if dt == "DInt8" else (HIDDEN_I[:3] if isint else HIDDEN_F)) if m else v)
+    hid = [(rnd.choice([0, 7, 999999] if dt == "DUInt" else [h for h in HIDDEN_I if abs(h) < 120] if dt == "DInt8" else (HIDDEN_I[:3] if isint else HIDDEN_F)) if m else v)
            for v, m in zip(vals, mask)]
     npdt = NP_INT[dt] if isint else NP_FLOAT[dt]
     a = numpy.ma.array(numpy.array(hid, dtype=npdt).reshape(shape), mask=numpy.array(mask).reshape(shape))
@@ -117,7 +119,9 @@ def gen_case(rnd, cname, prop, shape=None, mask_p=None):
         else:
             dts.append(rnd.choice(["DInt", "DFloat"]))
     big = fine = False
-    if prop in ("C07", "C02") and cname in ARITH and n >= 2 and rnd.random() < 0.35:
+    if not fuzzy and "DInt" in dts and rnd.random() < 0.15:
+        dts = ["DUInt" if d == "DInt" else d for d in dts]        # "Positive Integer" layers
+    elif prop in ("C07", "C02") and cname in ARITH and n >= 2 and rnd.random() < 0.35:
         # narrow element types next to a 64-bit input: numpy promotes to the wide type, so no overflow is legitimate
         k = rnd.randrange(n)
         wide = "DInt" if dts[k] == "DInt" else "DFloat"
